@@ -12,6 +12,7 @@ Decided:
   R18.5  rows: task list sorted by sequence number, leaf filter control dependent on leafTasksOnly, one
          body line per task of the list, one cell per column
   R18.6  row filters are interpreted: a filter stored as text is not decided by the truthiness of its spelling
+  R18.8  no class-/module-level container is written while a report is generated (rendered values are not remembered)
   R18.7  every Report.generate() rebuilds the intermediate table before any format writer runs
 Not decided: cell text = formatted model value for concrete values.
 """
@@ -262,12 +263,29 @@ def run(ctx: Ctx):
                     if not own:
                         filters.append(norm(t))
                 p_ = getattr(p_, "_parent", None)
+        # ... and every record of a slot is looked at: the sum sits inside a loop over the slot's own record list
+        tnames = {x.id for x in ast.walk(l.target) if isinstance(x, ast.Name)}
+        inner_ok = bool(accs) and all(any(isinstance(p2, ast.For) and p2 is not l and any(isinstance(z, ast.Name) and z.id in tnames for z in ast.walk(p2.iter))
+                                          and any(a_ is y for y in ast.walk(p2)) for st in l.body for p2 in ast.walk(st)) for a_ in accs)
+        if accs and not inner_ok:
+            filters.append("only part of each slot's record list is examined")
         ok = bool(accs) and not skips and not filters
         ctx.ob("R18.4", f"{gc.qual}: ledger scan counts every record of this task", (gc, l), ok,
                "inside the scan the only filter is the own-record test" if ok else
                f"records of this task can be skipped inside the ledger scan ({[norm(x) for x in skips][:2] + filters[:2]}): seconds booked in a "
                "slot whose table entry now names another task (shared final slot) are not charged, so cost != rate x booked time",
                key=key_of("R18.4", gc, None, "record filter"))
+    # ---------------------------------------------------------------- R18.8 nothing rendered is remembered across reports
+    from .c12 import shared_container_census
+    shared_container_census(ctx, "R18.8", rreach, floor=5)
+    # ---------------------------------------------------------------- R18.5 (cont.) the sort key keeps the value's kind
+    ts = repo.func("Query.to_sort")
+    bad = sorted(a[5:] for a in data(ctx.dep.summary(ts).ret) if a.startswith("call:") and a[5:] in ("str", "join", "format", "repr", "strftime"))
+    ctx.ob("R18.5", f"{ts.qual}: sort key is the value itself", ts, not bad,
+           "sequence numbers sort numerically, dates chronologically" if not bad else
+           f"the sort key passes through {bad}: numbers are compared as text, so a report of ten or more tasks lists 1, 10, 11, 2, ... instead of "
+           "declaration order",
+           key="R18.5|Query.to_sort|kind preserved")
     # ---------------------------------------------------------------- R18.6
     ev = repo.func("ReportBase._eval_expression")
     # what type does the parser store into the filter attributes?
